@@ -1264,6 +1264,12 @@ impl PackageMetadata {
     }
 }
 
+/// File name as used for matching archive entries with header entries: without the leading
+/// "./" or "/" that the two sides may or may not carry.
+fn archive_name(name: &str) -> &str {
+    name.trim_start_matches("./").trim_start_matches('/')
+}
+
 pub struct FileIterator<'a> {
     file_entries: Vec<FileEntry>,
     archive: Box<dyn io::Read + 'a>,
@@ -1284,10 +1290,6 @@ impl Iterator for FileIterator<'_> {
             return None;
         }
 
-        // @todo: probably safe to hand out a reference instead of cloning, just a bit more painful
-        let file_entry = self.file_entries[self.count].clone();
-        self.count += 1;
-
         let reader = payload::Reader::new(&mut self.archive, &self.file_entries);
 
         match reader {
@@ -1295,6 +1297,33 @@ impl Iterator for FileIterator<'_> {
                 if entry_reader.is_trailer() {
                     return None;
                 }
+
+                // The archive may omit files the header lists (%ghost) or order them differently,
+                // so the metadata is looked up by what the archive entry says it is, not by position.
+                // @todo: probably safe to hand out a reference instead of cloning, just a bit more painful
+                let file_entry = match entry_reader.entry() {
+                    payload::RpmPayloadEntry::Stripped(file_index) => {
+                        self.file_entries.get(*file_index as usize)
+                    }
+                    payload::RpmPayloadEntry::Cpio(cpio_entry) => {
+                        let name = archive_name(cpio_entry.name());
+                        let is_named = |entry: &&FileEntry| {
+                            archive_name(&entry.path.to_string_lossy()) == name
+                        };
+                        // the common case first: same position as in the header
+                        self.file_entries
+                            .get(self.count)
+                            .filter(is_named)
+                            .or_else(|| self.file_entries.iter().find(is_named))
+                    }
+                };
+                let Some(file_entry) = file_entry.cloned() else {
+                    return Some(Err(Error::Io(io::Error::new(
+                        io::ErrorKind::InvalidData,
+                        "archive entry does not belong to any file of the header",
+                    ))));
+                };
+                self.count += 1;
 
                 let mut content = Vec::new();
 
